@@ -24,13 +24,18 @@ RevBC   == Plus10(TagBC)
 \* plain C sits on the tag of revoked A: H3
 TagCrA  == ("A" :> 1 @@ "B" :> 2 @@ "C" :> 11)
 RevCrA  == Plus10(TagCrA)
-\* the checksum of revoked A carries: H2
-RevCarryA == ("A" :> 12 @@ "B" :> 12 + 1)
-RevCarry2 == ("A" :> 12 @@ "B" :> 13)
+\* the checksum of revoked A carries (RevTag = Tag + Delta + 1): H2
+TagH2   == ("A" :> 1 @@ "B" :> 3)
+RevH2   == ("A" :> 12 @@ "B" :> 13)
 
 Days6 == {0, 1, 29, 31, 89, 91}
 Days4 == {0, 29, 31, 91}
 Days3 == {1, 31, 91}
+Days2 == {1, 31}
+Days1 == {1}
+DaysAny == 0..400
+RF_unreadable == {"tombUnreadable"}
+RF_state == {"stateCorrupt"}
 RF_none == {}
 RF_tomb == {"tombCorrupt"}
 RF_corrupt == {"tombCorrupt", "stateCorrupt"}
